@@ -61,7 +61,7 @@ theorem jalali_getMonthDayFromYdays_eq (yd : Int) (h1 : 1 ≤ yd) :
     jalali_getMonthDayFromYdays yd = some ((Jalali.getMonthDay yd).1, GoSem.u8 (Jalali.getMonthDay yd).2) := by
   have hr := jalali_bisect_range yd h1
   have hu : GoSem.u8 ((Jalali.bisect yd 0 13 : Nat) : Int) = (Jalali.bisect yd 0 13 : Nat) := GoSem.u8_id (by omega) (by omega)
-  simp only [jalali_getMonthDayFromYdays, SrcExt.utils_BisectLeft, jalali_bisect_eq, bind, Option.bind, pure, hu,
+  simp only [jalali_getMonthDayFromYdays, utils_BisectLeft_eq, jalali_bisect_eq, bind, Option.bind, pure, hu,
     jalali_sum_idx _ (show (1:Int) ≤ (Jalali.bisect yd 0 13 : Nat) by omega) (by omega), Jalali.getMonthDay]
 
 -- ---- 33-year algorithm (alg2820 = false) --------------------------------------------------------
